@@ -186,12 +186,96 @@ end Hpl
 
 namespace Hpl
 
+mutual
+/-- a renaming of a tree that does not use the name `A` has no quantifier binding `A` -/
+theorem ren_noBind (A : String) : ∀ (e e1 : Expr), Ren A e e1 → NoName A e → NoBind A e1
+  | .this _, e1, hr, _ => by
+      simp only [Ren] at hr; obtain ⟨ty, rfl⟩ := hr
+      intro v hv; simp only [Expr.preorder, List.mem_singleton] at hv; subst hv; rfl
+  | .lit .., e1, hr, _ => by
+      simp only [Ren] at hr; subst hr
+      intro v hv; simp only [Expr.preorder, List.mem_singleton] at hv; subst hv; rfl
+  | .var .., e1, hr, _ => by
+      simp only [Ren] at hr; subst hr
+      intro v hv; simp only [Expr.preorder, List.mem_singleton] at hv; subst hv; rfl
+  | .set t vs, e1, hr, hn => by
+      simp only [Ren] at hr; obtain ⟨vs1, rfl, hl⟩ := hr
+      simp only [NoName] at hn
+      intro v hv; simp only [Expr.preorder, List.mem_cons] at hv
+      rcases hv with rfl | hv
+      · rfl
+      · exact renL_noBind A vs vs1 hl hn v hv
+  | .range t lo hi a b, e1, hr, hn => by
+      simp only [Ren] at hr; obtain ⟨l1, h1, rfl, hl, hh⟩ := hr
+      simp only [NoName] at hn
+      intro v hv; simp only [Expr.preorder, List.mem_cons, List.mem_append] at hv
+      rcases hv with rfl | hv | hv
+      · rfl
+      · exact ren_noBind A lo l1 hl hn.1 v hv
+      · exact ren_noBind A hi h1 hh hn.2 v hv
+  | .quant t q x d b, e1, hr, hn => by
+      simp only [Ren] at hr; obtain ⟨d1, b1, rfl, hd, hb⟩ := hr
+      simp only [NoName] at hn
+      intro v hv; simp only [Expr.preorder, List.mem_cons, List.mem_append] at hv
+      rcases hv with rfl | hv | hv
+      · simp only [bindsName]; simp [beq_eq_false_iff_ne]; exact fun h => hn.1 h.symm
+      · exact ren_noBind A d d1 hd hn.2.1 v hv
+      · exact ren_noBind A b b1 hb hn.2.2 v hv
+  | .un t op a, e1, hr, hn => by
+      simp only [Ren] at hr; obtain ⟨a1, rfl, ha⟩ := hr
+      simp only [NoName] at hn
+      intro v hv; simp only [Expr.preorder, List.mem_cons] at hv
+      rcases hv with rfl | hv
+      · rfl
+      · exact ren_noBind A a a1 ha hn v hv
+  | .bin t op a b, e1, hr, hn => by
+      simp only [Ren] at hr; obtain ⟨a1, b1, rfl, ha, hb⟩ := hr
+      simp only [NoName] at hn
+      intro v hv; simp only [Expr.preorder, List.mem_cons, List.mem_append] at hv
+      rcases hv with rfl | hv | hv
+      · rfl
+      · exact ren_noBind A a a1 ha hn.1 v hv
+      · exact ren_noBind A b b1 hb hn.2 v hv
+  | .call t f as, e1, hr, hn => by
+      simp only [Ren] at hr; obtain ⟨as1, rfl, hl⟩ := hr
+      simp only [NoName] at hn
+      intro v hv; simp only [Expr.preorder, List.mem_cons] at hv
+      rcases hv with rfl | hv
+      · rfl
+      · exact renL_noBind A as as1 hl hn v hv
+  | .field t m n, e1, hr, hn => by
+      simp only [Ren] at hr; obtain ⟨m1, rfl, hm⟩ := hr
+      simp only [NoName] at hn
+      intro v hv; simp only [Expr.preorder, List.mem_cons] at hv
+      rcases hv with rfl | hv
+      · rfl
+      · exact ren_noBind A m m1 hm hn v hv
+  | .index t a i, e1, hr, hn => by
+      simp only [Ren] at hr; obtain ⟨a1, i1, rfl, ha, hi⟩ := hr
+      simp only [NoName] at hn
+      intro v hv; simp only [Expr.preorder, List.mem_cons, List.mem_append] at hv
+      rcases hv with rfl | hv | hv
+      · rfl
+      · exact ren_noBind A a a1 ha hn.1 v hv
+      · exact ren_noBind A i i1 hi hn.2 v hv
+theorem renL_noBind (A : String) : ∀ (es es1 : ExprList), RenL A es es1 → NoNameL A es → NoBindL A es1
+  | .nil, es1, hr, _ => by simp only [RenL] at hr; subst hr; intro v hv; simp [ExprList.preorder] at hv
+  | .cons e es, es1, hr, hn => by
+      simp only [RenL] at hr; obtain ⟨e1, es1', rfl, he, hes⟩ := hr
+      simp only [NoNameL] at hn
+      intro v hv; simp only [ExprList.preorder, List.mem_append] at hv
+      rcases hv with hv | hv
+      · exact ren_noBind A e e1 he hn.1 v hv
+      · exact renL_noBind A es es1' hes hn.2 v hv
+end
+
 /-- **C13**: `replace_var_with_this(·, A)` undoes a renaming of the current message to `@A` (`Ren`), for a well-typed tree
     in which `A` is not otherwise used. (That `replace_this_with_var(e, A)` produces such a renaming is checked by the
     stream on every generated tree; it is not proved here.) -/
 theorem replaceVarWithThis_undoes (A : String) (e e1 : Expr) (hr : Ren A e e1) (hw : WT e) (hb : Rebuildable e) (hn : NoName A e) :
     replaceVarWithThisE e1 A = .ok e := by
   unfold replaceVarWithThisE Expr.replaceVar
+  rw [substV_eq_substE A _ e1 (ren_noBind A e e1 hr hn)]
   exact subst_back A e e1 hr hw hb hn
 
 -- non-vacuity: `x > 0` (x a field of the current message) renamed to `@A.x > 0`
